@@ -129,7 +129,7 @@ def rule (a : AState) : Call → Rule
                             args := [(nb, .ebadname), (db, .ebaddim), (inUse, .enameinuse)],
                             late := growsInData longer a.mode }
   -- blocking data access: collective APIs in collective data mode, independent in independent
-  | .rw isPut coll v text cb =>
+  | .rw isPut coll v text cb _ =>
                           { writes := isPut, wh := if coll then .collOnly else .indepOnly,
                             args := vNoGlobal v ++ [(text != (v == .chr), .echar), (cb, .einvalcoords)] }
   -- nonblocking posts: any mode; bput needs an attached buffer (undocumented order w.r.t. coordinates)
